@@ -72,6 +72,11 @@ pub fn substance_from_formula(
         unit: molar_mass_unit,
     };
 
+    // No elements at all isn't a chemical formula.
+    if formula.is_empty() {
+        return None;
+    }
+
     let mut iter = TokenIterator::new(formula).peekable();
     while let Some(token) = iter.next() {
         match token {
